@@ -12,31 +12,43 @@
 (***************************************************************************)
 EXTENDS Failure
 
+CONSTANT Extras   \* script families, subset of {"none", "mup", "owed", "stale"}:
+                  \* "none"  gates, the racing API transition parked early / late, faults
+                  \* "mup"   a master-generated TASK_RUNNING update (no executor id / no ids at all), then a fault
+                  \* "owed"  the racing API transition with one task's answer withheld: the task can die owing it,
+                  \*         the answer is delivered late - before or after the watcher's timer (env.watch.fire held)
+                  \* "stale" a stale healthy state message of the dead task is processed after its failure,
+                  \*         within (timer held) or beyond the watcher's grace period
+
 VARIABLES
   wgate,    \* the watcher parks at its next hook point (env.watch.start when unsub, else env.watch.recv)
-  txgate,   \* "none" | "early" | "late": where the API transition parks
+  txgate,   \* "none" | "early" | "late" | "owed": where the API transition parks / waits for owedT's answer
+  owedT,    \* the task whose answer is withheld
+  fgate,    \* the watcher's timer callback parks at env.watch.fire
+  extra,    \* the script family of this behaviour
   script,   \* script steps so far
   shape     \* the initial choice, kept for printing
 
-gvars == <<wgate, txgate, script, shape>>
+gvars == <<wgate, txgate, owedT, fgate, extra, script, shape>>
 
 \* ---- pipeline under gates, in priority order --------------------------------
 PickMsg == CHOOSE m \in msgs : TRUE
 PickChain == CHOOSE c \in chains : \A d \in chains : c.pc = "notify" \/ d.pc # "notify"
 PickStq == CHOOSE t \in stq : TRUE
-PickReply == CHOOSE t \in tx.targets \ tx.replied : alive[t]
+Repliers == {t \in tx.targets \ tx.replied : (alive[t] \/ t \in late) /\ ~(txgate = "owed" /\ t = owedT)}
+PickReply == CHOOSE t \in Repliers : TRUE
 PickIe == CHOOSE t \in ies : TRUE
 
-P1 == msgs # {} /\ (StatusMsg(PickMsg) \/ FailureMsg(PickMsg) \/ DeviceMsg(PickMsg))
+P1 == msgs # {} /\ (StatusMsg(PickMsg) \/ FailureMsg(PickMsg) \/ DeviceMsg(PickMsg) \/ RunningMsg(PickMsg))
 P2 == stq # {} /\ StatusInactive(PickStq)
 P3 == chains # {} /\ (StateToError(PickChain) \/ RoleForward(PickChain) \/ RootMerge(PickChain)
                       \/ NotifyDeliver(PickChain) \/ NotifyDrop(PickChain))
-P4 == tx.pc = "sent" /\ (\E t \in tx.targets \ tx.replied : alive[t]) /\ TxReply(PickReply)
+P4 == tx.pc = "sent" /\ Repliers # {} /\ TxReply(PickReply)
 P5 == ~wgate /\ (WatchSubscribe \/ WatchRecv)
 P6 == WatchLoop \/ WatchRecvBuffered
 P7 == (txgate # "early" /\ TxSend) \/ TxEnter \/ TxFail \/ (txgate # "late" /\ TxRelease)
 P8 == ies # {} /\ IeAcquire(PickIe)
-P9 == TimerFire \/ GoError \/ ForceError \/ StopRunning
+P9 == (~fgate /\ TimerFire) \/ GoError \/ ForceError \/ StopRunning
 
 Prio == <<"P1", "P2", "P3", "P4", "P5", "P6", "P7", "P8", "P9">>
 En(i) == CASE i = 1 -> ENABLED P1 [] i = 2 -> ENABLED P2 [] i = 3 -> ENABLED P3 [] i = 4 -> ENABLED P4
@@ -56,47 +68,93 @@ NFaults == Cardinality({i \in 1..Len(script) : script[i][1] = "fault"})
 
 G_Fault(k, t) ==
   /\ Stable
+  /\ (extra = "mup" => script # <<>>) /\ (extra = "owed" => txgate = "owed")
   /\ CASE k \in StatusKinds -> TaskTerminal(k, t)
        [] k = "TASK_FINISHED" -> Finished(t)
        [] k \in {"EXECUTOR_LOST", "AGENT_LOST"} -> GroupLost(k, t)
        [] k = "INTERNAL_ERROR" -> InternalError(t)
        [] OTHER -> FALSE
+  \* a task that dies owing its answer: the answer was already on its way (delivered by "latereply")
+  /\ late' = IF txgate = "owed" /\ ~alive'[owedT] THEN late \cup {owedT} ELSE late
   /\ Step(<<"fault", k, t>>)
-  /\ UNCHANGED <<wgate, txgate, shape>>
+  /\ UNCHANGED <<wgate, txgate, owedT, fgate, extra, shape>>
 
 \* the racing API transition, parked early (lock acquired, nothing sent) or late (state entered, lock held)
 G_Api(g) ==
-  /\ Stable /\ txgate = "none" /\ g \in {"early", "late"}
+  /\ extra = "none" /\ Stable /\ txgate = "none" /\ g \in {"early", "late"}
   \* the transition must get as far as its after_<EVENT> hook to park there
   /\ (g = "late" => \A t \in sick : ~crit[t])
   /\ ApiAcquire
   /\ txgate' = g
   /\ Step(<<"api", IF envSt = "CONFIGURED" THEN "START" ELSE "STOP", g>>)
-  /\ UNCHANGED <<wgate, shape>>
+  /\ UNCHANGED <<wgate, owedT, fgate, extra, shape>>
+
+\* the racing API transition with the answer of task t withheld
+G_ApiOwed(t) ==
+  /\ extra = "owed" /\ Stable /\ txgate = "none" /\ alive[t] /\ t \notin sick /\ tstatus[t] = "ACTIVE" /\ script = <<>>
+  /\ ApiAcquire
+  /\ txgate' = "owed" /\ owedT' = t
+  /\ Step(<<"api", IF envSt = "CONFIGURED" THEN "START" ELSE "STOP", "owed", t>>)
+  /\ UNCHANGED <<wgate, fgate, extra, shape>>
+
+G_LateReply ==
+  /\ Stable /\ txgate = "owed" /\ NFaults > 0
+  /\ txgate' = "none"
+  /\ Step(<<"latereply", owedT>>)
+  /\ UNCHANGED vars /\ UNCHANGED <<wgate, owedT, fgate, extra, shape>>
+
+G_Stale(t) ==
+  /\ extra = "stale" /\ Stable /\ txgate = "none"
+  /\ StaleUpdate(t)
+  /\ Step(<<"stale", t>>)
+  /\ UNCHANGED <<wgate, txgate, owedT, fgate, extra, shape>>
+
+G_MasterUpdate(t, v) ==
+  /\ extra = "mup" /\ Stable /\ txgate = "none" /\ NFaults = 0 /\ script = <<>>
+  /\ MasterUpdate(t, v)
+  /\ Step(<<"mupdate", t, v>>)
+  /\ UNCHANGED <<wgate, txgate, owedT, fgate, extra, shape>>
+
+\* hold the 500 ms timer of the watcher: what follows the fault is processed within the grace period
+G_ArmF ==
+  /\ Stable /\ ~fgate /\ NFaults = 0 /\ wpc \in {"select", "busy", "loop"}
+  /\ (extra = "owed" /\ txgate = "owed") \/ (extra = "stale" /\ script = <<>>)
+  /\ fgate' = TRUE
+  /\ Step(<<"armf">>)
+  /\ UNCHANGED vars /\ UNCHANGED <<wgate, txgate, owedT, extra, shape>>
+
+G_ReleaseF ==
+  /\ Stable /\ fgate /\ NFaults > 0
+  /\ fgate' = FALSE
+  /\ Step(<<"releasef">>)
+  /\ UNCHANGED vars /\ UNCHANGED <<wgate, txgate, owedT, extra, shape>>
 
 \* arm the watcher gate while it waits at its select: it will park at its next receive
 G_ArmW ==
-  /\ Stable /\ ~wgate /\ wpc = "select" /\ NFaults = 0 /\ budget > 1
+  /\ extra = "none" /\ Stable /\ ~wgate /\ wpc = "select" /\ NFaults = 0 /\ budget > 1
   /\ wgate' = TRUE
   /\ Step(<<"armw">>)
-  /\ UNCHANGED vars /\ UNCHANGED <<txgate, shape>>
+  /\ UNCHANGED vars /\ UNCHANGED <<txgate, owedT, fgate, extra, shape>>
 
 G_ReleaseW ==
   /\ Stable /\ wgate /\ NFaults > 0
   /\ wgate' = FALSE
   /\ Step(<<"releasew">>)
-  /\ UNCHANGED vars /\ UNCHANGED <<txgate, shape>>
+  /\ UNCHANGED vars /\ UNCHANGED <<txgate, owedT, fgate, extra, shape>>
 
 G_ReleaseTx ==
-  /\ Stable /\ txgate # "none" /\ NFaults > 0
+  /\ Stable /\ txgate \in {"early", "late"} /\ NFaults > 0
   /\ txgate' = "none"
   /\ Step(<<"releasetx">>)
-  /\ UNCHANGED vars /\ UNCHANGED <<wgate, shape>>
+  /\ UNCHANGED vars /\ UNCHANGED <<wgate, owedT, fgate, extra, shape>>
 
 GenInit ==
   /\ Init
   /\ wgate = (wpc \in {"unsub", "busy"})
-  /\ txgate = "none"
+  /\ txgate = "none" /\ owedT = "none" /\ fgate = FALSE
+  /\ extra \in Extras
+  /\ (extra = "owed" => apiLeft > 0)
+  /\ (extra \in {"mup", "stale"} => wpc = "select")
   /\ script = <<>>
   /\ shape = [crit |-> crit, layout |-> layout, hook |-> hook, state |-> envSt, watch |-> wpc]
 
@@ -105,10 +163,12 @@ GenNext ==
   \/ \E k \in Kinds, t \in Tasks : G_Fault(k, t)
   \/ \E g \in {"early", "late"} : G_Api(g)
   \/ G_ArmW \/ G_ReleaseW \/ G_ReleaseTx
+  \/ \E t \in Tasks : G_ApiOwed(t) \/ G_Stale(t) \/ G_MasterUpdate(t, "noexec") \/ G_MasterUpdate(t, "noids")
+  \/ G_LateReply \/ G_ArmF \/ G_ReleaseF
 
 GenSpec == GenInit /\ [][GenNext]_<<vars, gvars>>
 
 PrintCase ==
-  (Stable /\ ~wgate /\ txgate = "none" /\ NFaults > 0 /\ script[Len(script)][1] # "armw")
+  (Stable /\ ~wgate /\ ~fgate /\ txgate = "none" /\ NFaults > 0 /\ script[Len(script)][1] \notin {"armw", "armf"})
     => PrintT(<<"CASE", shape, script>>)
 =============================================================================
